@@ -30,6 +30,7 @@ META = {
         "after the other in one process, and a name loaded before and after its module appears in sys.modules: each load is "
         "judged by what its spelling denotes at that moment. "
         "distinct_nontrivial = distinct (target kind, placement, loader, outcome) classes."
+        " Targets naming un-imported sub-packages through the loaded package (taskiq.api..., taskiq.cli..., ...), judged by a static attribute lookup."
     ),
     "assumptions": [
         "attribute hooks that run on plain getattr (module __getattr__, descriptors) are not planted: resolving a dotted name necessarily reads attributes",
@@ -213,6 +214,15 @@ TARGETS: List[Tuple[Optional[str], str, str]] = [
     (None, "getattr", "unresolved"),
     ("taskiq.serialization", "issubclass", "unresolved"),
     ("taskiq.exceptions", "isinstance", "unresolved"),
+    # attributes of the loaded package `taskiq` that are sub-packages it has NOT imported: resolving them
+    # must neither import them nor find anything (kind decided at run time by a static lookup)
+    ("taskiq", "api.run_receiver_task", "auto"),
+    ("taskiq", "api", "auto"),
+    ("taskiq", "cli.worker.run.start_listen", "auto"),
+    ("taskiq", "schedule_sources.LabelScheduleSource", "auto"),
+    ("taskiq", "brokers.zmq_broker.ZeroMQBroker", "auto"),
+    ("taskiq", "middlewares.prometheus_middleware.PrometheusMiddleware", "auto"),
+    ("taskiq", "InMemoryBroker", "auto"),
 ]
 ARGS: List[Tuple[Any, ...]] = [(), ("x",), (1, 2), ("a", 2, None)]
 PLACEMENTS = ["top"] + [".".join(c) for d in (1, 2, 3) for c in itertools.product(("cause", "context"), repeat=d)]
@@ -274,6 +284,8 @@ def run_case(target: Tuple[Optional[str], str, str], args: Tuple[Any, ...], plac
     mod, typ, kind = target
     if loader == "wrapper_instance":
         kind = "wrapper"
+    if kind == "auto":
+        kind = _truth(mod, typ)
     if kind == "unresolved-if-not-loaded":
         kind = "unresolved" if mod not in sys.modules else "skip"
         if kind == "skip":
@@ -377,11 +389,18 @@ def _truth(mod: Optional[str], typ: str) -> str:
     """What the name really denotes right now: exc | nonexc | unresolved."""
     if mod is None or mod not in sys.modules:
         return "unresolved"
+    import inspect
+
     cur: Any = sys.modules[mod]
     for part in typ.split("."):
-        if not hasattr(cur, part):
+        # static lookup: must not run a module-level __getattr__ or a descriptor (that would be the
+        # harness, not the loader, importing or computing something)
+        try:
+            cur = inspect.getattr_static(cur, part)
+        except AttributeError:
             return "unresolved"
-        cur = getattr(cur, part)
+        if isinstance(cur, (staticmethod, classmethod)):
+            cur = cur.__func__
     return "exc" if isinstance(cur, type) and issubclass(cur, BaseException) else "nonexc"
 
 
